@@ -274,7 +274,7 @@ def col_in_use(schema, tname, cname):
     return False
 
 
-def candidate_mutations(rng, schema, odd=False):
+def candidate_mutations(rng, schema, odd=False, stacked=False):
     """One candidate of every mutation kind of the documented catalogue that is applicable
     to `schema` (random choice of the object).  Each is (descriptor, mutated schema)."""
     out = []
@@ -416,6 +416,15 @@ def candidate_mutations(rng, schema, odd=False):
     # addIndex
     ix = gen_index(rng, t0, set(used))
     out.append(({"m": "addIndex", "t": tn, "n": ix["name"], "ix": ix}, mutated(lambda s: tbl(s, tn)["ixs"].append(ix))))
+    if stacked:
+        # an added index whose first column carries ordering modifiers - one (control) or two stacked ones
+        # (col.desc().nulls_last(), col.asc().nulls_first()); such an index is only compared, never created (C07)
+        ix2 = gen_index(rng, t0, set(used) | {ix["name"]})
+        ix2.pop("flag", None)
+        if ix2["name"].startswith("ix_%s_%s" % (tn, ix2["cols"][0])) and "_" not in ix2["name"][len("ix_%s_%s" % (tn, ix2["cols"][0])):]:
+            ix2["name"] = _fresh(rng, [], set(used) | {ix["name"]}, "ix_%s_mod_" % tn)
+        ix2["desc"] = rng.choice([True, "desc_nulls_last", "asc_nulls_first", "desc_nulls_last"])
+        out.append(({"m": "addIndex", "t": tn, "n": ix2["name"], "ix": ix2}, mutated(lambda s: tbl(s, tn)["ixs"].append(ix2))))
     if t0["ixs"]:
         ix0 = rng.choice(t0["ixs"])
         out.append(({"m": "dropIndex", "t": tn, "n": ix0["name"]}, mutated(lambda s: tbl(s, tn)["ixs"].remove(next(i for i in tbl(s, tn)["ixs"] if i["name"] == ix0["name"])))))
